@@ -247,7 +247,8 @@ def index_replay(ctx, rng):
 
 def planner_replay(ctx):
     """LisPlan.tla: the frame-set planner transcribed; TLC checks every plan in the bound against the abstract interpreter
-    (PlanOK) and exports every case with its plan; the real FrameSetPlan.genEvents must emit exactly that plan."""
+    (PlanOK) and exports every case with its plan; the real FrameSetPlan.genEvents is compared with it and, where it differs, its own
+    plan is judged by the same abstract interpreter (LisPlanJudge)."""
     import json
     import os
     import types
@@ -259,6 +260,7 @@ def planner_replay(ctx):
     ft = os.path.join(ctx.wdir('lisplan'), 'rows.json')
     ctx.tlc_check('MC_LisPlanTable', 'LisPlanTable', consts=consts, cfg_consts=cc, env={'OUT_TABLE': ft}, workers=1, coverage=False, timeout=3000)
     rows = json.load(open(ft))
+    differing = []
     for ri, row in enumerate(rows):
         dfsr = types.SimpleNamespace(ebs=types.SimpleNamespace(recordingMode=1 if row['indr'] else 0, depthRepCode=68 if row['indr'] else 0),
                                      dsbBlocks=[types.SimpleNamespace(size=z) for z in row['S']])
@@ -271,10 +273,24 @@ def planner_replay(ctx):
             ctx.fail('FrameSetPlan.genEvents raised %s: %s for %s' % (type(e).__name__, e, json.dumps({k: row[k] for k in row if k != 'plan'})), row, sig=dict(kind='planner-exception'))
             continue
         if got != row['plan']:
+            differing.append((row, got))
+    # a plan that differs from the transcription is judged by the abstract statement (TLC, LisPlanJudge), not by equality
+    if differing:
+        fin, fout = os.path.join(ctx.wdir('lisplan'), 'given.json'), os.path.join(ctx.wdir('lisplan'), 'verdicts.json')
+        json.dump([dict(S=r_['S'], indr=r_['indr'], start=r_['start'], stop=r_['stop'], step=r_['step'], chs=r_['chs'], plan=g_) for r_, g_ in differing], open(fin, 'w'))
+        ctx.tlc_check('MC_LisPlanJudge', 'LisPlanJudge', consts=consts, cfg_consts=cc, env={'IN_PLANS': fin, 'OUT_TABLE': fout}, workers=1, coverage=False, timeout=3000)
+        verdicts = json.load(open(fout))
+        sound = 0
+        for (row, got), ok in zip(differing, verdicts):
+            if ok:
+                sound += 1
+                continue
             k = next((i for i in range(min(len(got), len(row['plan']))) if got[i] != row['plan'][i]), min(len(got), len(row['plan'])))
-            ctx.fail('FrameSetPlan.genEvents(slice(%d,%d,%d), %r) on channel sizes %r, indirect %d: event %d is %r, the specification plans %r' % (
-                row['start'], row['stop'], row['step'], row['chs'], row['S'], row['indr'], k, got[k] if k < len(got) else None,
-                row['plan'][k] if k < len(row['plan']) else None), dict(row=row, got=got), sig=dict(kind='planner'))
+            ctx.fail('FrameSetPlan.genEvents(slice(%d,%d,%d), %r) on channel sizes %r, indirect %d does not read exactly the requested cells at their '
+                     'offsets (abstract interpreter of LisPlan.tla); first difference from the planned events at %d: %r, planned %r' % (
+                         row['start'], row['stop'], row['step'], row['chs'], row['S'], row['indr'], k, got[k] if k < len(got) else None,
+                         row['plan'][k] if k < len(row['plan']) else None), dict(row=row, got=got), sig=dict(kind='planner'))
+        ctx.notes['planner_plans_differing_but_sound'] = sound
     ctx.notes['planner_cases_replayed'] = len(rows)
 
 
